@@ -64,6 +64,10 @@ def main():
         note = NOTE
         if pid in EXT_RC:
             text += EXT_RC_TEXT
+            if pid == "C10":
+                text += (" A hand-written Clone / PartialEq method of a type under the tie that no correspondence theorem speaks about is a "
+                         "broken obligation (unmodelled); a broken obligation with no failing pair among the quick cases runs the thorough "
+                         "grid of clone / == pairs.")
             if "translator-regenerated" not in tech:
                 tech += " + translator-regenerated correspondence theorems (rs2lean)"
             note = NOTE + EXT_NOTE
